@@ -61,6 +61,7 @@ def run(ctx):
         listing_check(ctx, impl, jobs)
         symlink_check(ctx, impl, jobs)
         read_symlink_check(ctx, impl, jobs)
+        derived_symlink_check(ctx, impl)
         overlap_check(ctx, impl, jobs)
         upload_fault_check(ctx, impl, jobs)
         history_check(ctx, impl, jobs)
@@ -1506,6 +1507,174 @@ def read_symlink_check(ctx, impl, jobs):
                          """Definition obs (c : str * (list (str * ent) * list (list N))) : list (list N) :=
   let '(base, (ents, cont)) := c in [[b2n (followed (rrun (mk_st ents cont) (connect_read_ops base)))]].
 """, [c["exp"] for c in gs], lambda i: "connect with the state file %r" % (gs[i]["desc"],)))
+
+
+# ---------------------------------------------------------------------------
+# 8c. symbolic links AT names DERIVED from the names an operation uses (final name / `latest` / state file plus plausible
+#     temporary suffixes and prefixes): a service that starts to go through a temporary of its own must not open it through a
+#     link that is already there.  Code that never touches such a name is unaffected (the link is still there, nothing else moved).
+#     Direct oracle only (the containment rule of sections 5-8 on the real code).
+
+DERIVED_SUFFIXES = [".tmp", ".partial", ".new", "~", ".bak", ".part"]
+INSIDE_FILE = "zz-inside-file"
+
+
+def derived_names(base):
+    """names in the same directory derived from the direct child `base` (the final name itself is section 8's)"""
+    return [base + s for s in DERIVED_SUFFIXES] + ["." + base, "tmp" + base, "." + base + ".tmp", "tmp" + base + ".tmp"]
+
+
+def derived_texts():
+    return [("outside-file", LINK), ("outside-dangling", DANGLING_OUT), ("inside-file", INSIDE_FILE)]
+
+
+def contained(ctx, sig, what, arena, target, outside0, inside0, planted, replay, must_be_file=()):
+    """the containment rule: nothing outside the configured directory changed; every entry of the directory that was created or
+    replaced is a regular file (not the planted link moved under another name); the inside file a planted link names is untouched;
+    the stored files are regular files inside"""
+    from harness import c19_impl as impl
+    outside1, inside1 = impl.outside_snapshot(arena), impl.snap(target)
+    bad = []
+    if outside1 != outside0:
+        bad.append("changed outside the directory: %s" % tree_diff(outside0, outside1))
+    for k in sorted(inside1):
+        if (k not in inside0 or inside1[k] != inside0[k]) and inside1[k][0] == "l":
+            bad.append("%r is now a symbolic link to %r" % (k, inside1[k][1]))
+    if inside0.get(INSIDE_FILE) != inside1.get(INSIDE_FILE):
+        bad.append("the unrelated file %r that the planted link names was replaced" % INSIDE_FILE)
+    for q in must_be_file:
+        if os.path.islink(q) or not os.path.isfile(q) or outside(q, target):
+            bad.append("%r is not a regular file inside the directory (%s)" % (os.path.relpath(q, arena), kind(view(q))))
+    ctx.hist("derived_symlink", "%s:%s" % (sig.split("/")[-1], "bad" if bad else "contained"))
+    if bad:
+        ctx.fail(sig, "%s with %s already a symbolic link to %r: %s" % (what, os.path.relpath(planted[0], arena), planted[1], "; ".join(bad)),
+                 replay=replay)
+    return not bad
+
+
+def inside_file(target):
+    with open(os.path.join(target, INSIDE_FILE), "wb") as f:
+        f.write(b"INSIDE-UNRELATED")
+
+
+def gather_derived_case(ctx, impl, name, where, dname, text, sig=None):
+    """where: 'savefile' | 'latest': the name `dname` is derived from"""
+    arena, target, sent = impl.fresh("gatd")
+    inside_file(target)
+    comp = posixpath.normpath(name)
+    q, latest = os.path.join(target, comp + ".flog.bz2"), os.path.join(target, "latest")
+    p = os.path.join(target, dname)
+    os.symlink(text, p)
+    obs = impl.make_observer(target)
+    outside0, inside0 = impl.outside_snapshot(arena), impl.snap(target)
+    out = impl.got_incident(obs, name)
+    contained(ctx, sig or "oracle/gatherer-follows-preexisting-symlink-at-derived-name",
+              "IncidentObserver._got_incident with incident name %r (-> %s)" % (name, out), arena, target, outside0, inside0, (p, text),
+              dict(name=name, derived_from=where, link_at=os.path.relpath(p, arena), link_text=text, outcome=out),
+              must_be_file=[q, latest] if out == "ok" else [])
+
+
+def state_derived_case(ctx, impl, dname, text, sig=None):
+    """IncidentObserver.connect() reads `latest`; a link under a derived name must not be read"""
+    arena, target, sent = impl.fresh("gatsd")
+    inside_file(target)
+    with open(os.path.join(sent, "victim"), "wb") as f:
+        f.write(b"incident-SECRET-OUTSIDE\n")
+    latest = os.path.join(target, "latest")
+    with open(latest, "wb") as f:
+        f.write(b"incident-2008-07-29-204211-aspkxoi\n")
+    p = os.path.join(target, dname)
+    os.symlink(text, p)
+    outside0, inside0 = impl.outside_snapshot(arena), impl.snap(target)
+    out, since, raw = impl.connect(target)
+    esc = [r for r in raw if os.path.islink(r) and outside(r, target)]
+    sig = sig or "oracle/gatherer-state-read-follows-symlink-at-derived-name"
+    rep = dict(link_at=os.path.relpath(p, arena), link_text=text, outcome=out, since=repr(since))
+    if esc or b"SECRET" in (since or b""):
+        ctx.fail(sig, "IncidentObserver.connect() with %s a symbolic link to %r opened %r and sent since=%r"
+                 % (os.path.relpath(p, arena), text, [os.path.relpath(r, arena) for r in esc], since), replay=rep)
+    contained(ctx, sig, "IncidentObserver.connect() (-> %s)" % out, arena, target, outside0, inside0, (p, text), rep, must_be_file=[latest])
+
+
+def publish_derived_case(ctx, impl, name, ext, dname, text, sig=None):
+    """a real incident is stored under name+ext; a link sits under a name derived from it"""
+    arena, target, sent = impl.fresh("pubd")
+    impl.write_incident(os.path.join(sent, "victim"), "OUTSIDE-sentinel", compress=ext.endswith(".bz2"))
+    impl.write_incident(os.path.join(target, INSIDE_FILE), "inside-unrelated", compress=ext.endswith(".bz2"))
+    impl.write_incident(os.path.join(target, name + ext), "inside", compress=ext.endswith(".bz2"))
+    p = os.path.join(target, dname)
+    os.symlink(text, p)
+    pub = impl.make_publisher(target)
+    outside0, inside0 = impl.outside_snapshot(arena), impl.snap(target)
+    out, opened = impl.get_incident(pub, name, arena)
+    raw = list(impl.get_incident.raw)
+    sig = sig or "oracle/publisher-follows-preexisting-symlink-at-derived-name"
+    rep = dict(name=name, link_at=os.path.relpath(p, arena), link_text=text, outcome=out)
+    esc = [r for r in raw if os.path.islink(r) and outside(r, target)]
+    if esc or "OUTSIDE" in out:
+        ctx.fail(sig, "LogPublisher.remote_get_incident(%r) with %s a symbolic link to %r opened %r (answer: %s)"
+                 % (name, os.path.relpath(p, arena), text, [os.path.relpath(os.path.realpath(r), arena) for r in esc], out), replay=rep)
+    contained(ctx, sig, "LogPublisher.remote_get_incident(%r) (-> %s)" % (name, out), arena, target, outside0, inside0, (p, text), rep)
+
+
+def upload_derived_case(ctx, impl, name, dname, text, sig=None):
+    arena, target, sent = impl.fresh("upd")
+    inside_file(target)
+    comp = posixpath.normpath(name)
+    p = os.path.join(target, dname)
+    os.symlink(text, p)
+    fu = impl.make_uploader(target, 0o640)
+    outside0, inside0 = impl.outside_snapshot(arena), impl.snap(target)
+    out = impl.putfile(fu, name, [b"block-1", b"block-2"])
+    final = os.path.join(target, comp)
+    sig = sig or "oracle/upload-follows-preexisting-symlink-at-derived-name"
+    rep = dict(name=name, link_at=os.path.relpath(p, arena), link_text=text, outcome=out)
+    if contained(ctx, sig, "FileUploader.remote_putfile(%r) (-> %s)" % (name, out), arena, target, outside0, inside0, (p, text), rep,
+                 must_be_file=[final] if out == "ok" else []) and out == "ok":
+        if open(final, "rb").read() != b"block-1block-2":
+            ctx.fail(sig, "FileUploader.remote_putfile(%r) with %s a symbolic link to %r: the final name does not hold the upload"
+                     % (name, os.path.relpath(p, arena), text), replay=rep)
+
+
+# fixed witnesses (detection must not depend on the random stream): the temporary names a change is most likely to introduce
+DERIVED_FIXED = [("gatherer", "incident-2008-07-29-204211-aspkxoi", "savefile", ".tmp", LINK),
+                 ("gatherer", "incident-2008-07-29-204211-aspkxoi", "savefile", ".tmp", DANGLING_OUT),
+                 ("gatherer", "incident-2008-07-29-204211-aspkxoi", "latest", ".tmp", LINK),
+                 ("gatherer", "incident-2008-07-29-204211-aspkxoi", "latest", ".tmp", DANGLING_OUT)]
+
+
+def derived_symlink_check(ctx, impl):
+    for _, name, where, sfx, text in DERIVED_FIXED:
+        base = (posixpath.normpath(name) + ".flog.bz2") if where == "savefile" else "latest"
+        gather_derived_case(ctx, impl, name, where, base + sfx, text)
+        ctx.case(["gatherer-derived-symlink", name, where, base + sfx, text], nontrivial=True)
+    gnames = ["incident-1"] if ctx.tier == "quick" else ["incident-1", "a/../b", "x"]
+    for name in gnames:
+        comp = posixpath.normpath(name)
+        for where, base in (("savefile", comp + ".flog.bz2"), ("savefile", comp + ".flog"), ("savefile", comp), ("latest", "latest")):
+            for dname in derived_names(base):
+                for tk, text in derived_texts():
+                    gather_derived_case(ctx, impl, name, where, dname, text)
+                    ctx.case(["gatherer-derived-symlink", name, where, dname, text], nontrivial=True)
+    for dname in derived_names("latest"):
+        for tk, text in derived_texts():
+            state_derived_case(ctx, impl, dname, text)
+            ctx.case(["state-derived-symlink", dname, text], nontrivial=True)
+    for name, ext in [("incident-l", ".flog"), ("incident-l", ".flog.bz2")]:
+        for base in (name + ext, name):
+            for dname in derived_names(base):
+                for tk, text in derived_texts():
+                    publish_derived_case(ctx, impl, name, ext, dname, text)
+                    ctx.case(["publisher-derived-symlink", name, ext, dname, text], nontrivial=True)
+    for name in (["x"] if ctx.tier == "quick" else ["x", "a/../b", "report.txt"]):
+        comp = posixpath.normpath(name)
+        for base in (comp, comp + ".partial"):
+            for dname in derived_names(base):
+                if dname == comp + ".partial":
+                    continue                   # the uploader's own temporary: section 2 (variants tmplink ...)
+                for tk, text in derived_texts():
+                    upload_derived_case(ctx, impl, name, dname, text)
+                    ctx.case(["upload-derived-symlink", name, dname, text], nontrivial=True)
 
 
 # ---------------------------------------------------------------------------
